@@ -77,18 +77,27 @@ def create_then_get(chk, prog):
             fields['ExpirationPolicy'] = ex.new_ptr(ex.new_struct(PB + 'ExpirationPolicy', Ttl=ttl_p))
         if has_ret:
             fields['MessageRetentionDuration'] = ret_p
+        has_min = has_max = True
         if has_retry:
-            fields['RetryPolicy'] = ex.new_ptr(ex.new_struct(PB + 'RetryPolicy', MinimumBackoff=minb_p, MaximumBackoff=maxb_p))
+            which = ex.choose(3)          # both bounds, the minimum only, the maximum only
+            has_min, has_max = which != 2, which != 1
+            fields['RetryPolicy'] = ex.new_ptr(ex.new_struct(PB + 'RetryPolicy', MinimumBackoff=minb_p if has_min else None, MaximumBackoff=maxb_p if has_max else None))
         if has_dl:
             fields['DeadLetterPolicy'] = ex.new_ptr(ex.new_struct(PB + 'DeadLetterPolicy', DeadLetterTopic='projects/p/topics/r1', MaxDeliveryAttempts=att))
         if has_push:
             fields['PushConfig'] = ex.new_ptr(ex.new_struct(PB + 'PushConfig', PushEndpoint=endpoint))
         req = ex.new_ptr(ex.new_struct(PB + 'Subscription', **fields))
-        r1, err, code = call_handler(ex, db, hc, req)
-        if err is not None:
-            raise PathAbort('request not accepted')
-        g = ex.new_ptr(ex.new_struct(PB + 'GetSubscriptionRequest', Subscription=name))
-        r2, err2, code2 = call_handler(ex, db, hg, g)
+        blocks = dict(exp=has_exp, retention=has_ret, retry=has_retry, retry_min=has_min, retry_max=has_max, dead_letter=has_dl, push=has_push)
+        try:
+            r1, err, code = call_handler(ex, db, hc, req)
+            if err is not None:
+                raise PathAbort('request not accepted')
+            g = ex.new_ptr(ex.new_struct(PB + 'GetSubscriptionRequest', Subscription=name))
+            r2, err2, code2 = call_handler(ex, db, hg, g)
+        except GoPanic as p:
+            # the response mapping of an accepted configuration panics: the call is answered Internal although the subscription exists
+            ob.verify(ex, 'accepted-configuration-is-answered-without-a-panic', False, lambda m: {'optional blocks': blocks, 'panic': str(p)[:200]})
+            return
         ob.verify(ex, 'created-subscription-can-be-read-back', err2 is None)
         if err2 is not None:
             return
@@ -107,7 +116,7 @@ def create_then_get(chk, prog):
             rp = ex.getf(r, 'RetryPolicy')
             gmin = dur_ns(ex, ex.getf(rp, 'MinimumBackoff')) if rp is not None else 0
             gmax = dur_ns(ex, ex.getf(rp, 'MaximumBackoff')) if rp is not None else 0
-            ob.verify(ex, tag + ':retry-policy', And(ex.eq(gmin, minb if has_retry else 0), ex.eq(gmax, maxb if has_retry else 0)), d)
+            ob.verify(ex, tag + ':retry-policy', And(ex.eq(gmin, minb if (has_retry and has_min) else 0), ex.eq(gmax, maxb if (has_retry and has_max) else 0)), d)
             dl = ex.getf(r, 'DeadLetterPolicy')
             if has_dl:
                 ob.verify(ex, tag + ':dead-letter-policy', dl is not None and And(ex.eq(ex.getf(dl, 'DeadLetterTopic'), 'projects/p/topics/r1'),
